@@ -66,8 +66,8 @@ func TestC06(t *testing.T) {
 
 func TestC07(t *testing.T) {
 	runProp(t, "C07", func(t *rapid.T) *core.Case {
-		c := drawGeneral(t, gen.Profile{MaxDepth: 3, NoStartEnd: true}, gen.WindowOpts{ForceRange: true, Long: true},
-			gen.DataOpts{Specials: true, MaxSeries: 10, Histogram: true})
+		c := drawGeneral(t, gen.Profile{MaxDepth: 3, NoStartEnd: true, Nameless: true}, gen.WindowOpts{ForceRange: true, Long: true},
+			gen.DataOpts{Specials: true, MaxSeries: 10, Histogram: true, Twins: true})
 		n := c.NumSteps()
 		a := rapid.IntRange(0, n-1).Draw(t, "sub0")
 		b := rapid.IntRange(a, n-1).Draw(t, "sub1")
